@@ -23,7 +23,7 @@ ASSUMPTIONS = [
     "Modbus/TCP transaction id",
     "contracts are attached by patching goodwe.modbus.* and goodwe.protocol.* (both names) and the AA55 staticmethod",
 ]
-MUST = ["contract_eval_validate_modbus_rtu_response", "contract_eval_validate_modbus_tcp_response",
+MUST = ["leftover_fragment_histories", "contract_eval_validate_modbus_rtu_response", "contract_eval_validate_modbus_tcp_response",
         "contract_eval_validate_aa55_response", "verdict_true", "verdict_false", "verdict_partial", "verdict_rejected",
         "transport_level_results", "malformed_answer_in_two_pieces", "exception_frames_through_transport", "concurrent_transport_cases", "accepted_rtu_read", "accepted_rtu_write", "accepted_rtu_multi", "accepted_tcp_read",
         "accepted_tcp_write", "accepted_tcp_multi", "accepted_aa55"]
@@ -409,6 +409,39 @@ def exception_frames_part(part):
                     part.see(f"excframe|{framing}|{kind}|{code}")
 
 
+def leftover_fragment_part(part):
+    """request A receives the head of its answer and then the WHOLE answer again (it completes; the head was never consumed); request B on the
+    same object then receives only the tail of its answer - exactly as many bytes as A's head was short of.  Nothing valid was sent for B: it
+    must not complete with a frame glued together from the two (on Modbus/TCP there is no checksum that would refuse the glued frame)"""
+    for transport, framing in (("tcp", "tcp"), ("udp", "rtu"), ("udp", "aa55")):
+        for ka in (True, False):
+            for count in (2, 5):
+                full = {"tcp": 9 + 2 * count, "rtu": 9 + 2 * count, "aa55": 49}[framing]
+                hdr = 5 if framing == "rtu" else 9
+                for k in sorted({hdr, hdr + 1, full - 3, full - 1}):
+                    for gap in (0.0, 0.3):
+                        if framing == "aa55":
+                            steps = [["aa55", "010600", "0186"]] + ([["sleep", gap]] if gap else []) + [["aa55", "010600", "0186"]]
+                            sc = {"script": [["fragthenfull", k], ["tailonly", k]]}
+                        else:
+                            steps = [["read", 100, count]] + ([["sleep", gap]] if gap else []) + [["read", 101, count]]
+                            sc = {"by_reg": {100: [["fragthenfull", k]], 101: [["tailonly", k]]}}
+                        sc.update({"transport": transport, "framing": framing, "keep_alive": ka, "T": 1, "R": 0, "after": "drop",
+                                   "tasks": [{"start": 0.0, "steps": steps}]})
+                        run = engine.run_scenario(sc, quiesce=False)
+                        part.evaluations += 1
+                        part.count("leftover_fragment_histories")
+                        reads = [c for c in run.calls if c["step"][0] in ("read", "aa55")]
+                        part.see(f"leftover|{framing}|{ka}|{k - hdr}|{[c['outcome'] for c in reads]}")
+                        if run.stop:
+                            part.violate(f"C01/{framing}/hang-on-mutated-frame", run.stop, {"leftover": True})
+                        elif len(reads) == 2 and reads[1]["outcome"] == "ok":
+                            part.violate(f"C01/{framing}/delivered-invalid-result",
+                                         f"keep_alive={ka}: request A got the first {k} bytes of its answer and then the whole answer; request B was sent only the "
+                                         f"last {full - k} bytes of its answer, yet it completed with {reads[1]['result'].get('raw', '')[:80]} - a frame nobody sent",
+                                         {"leftover": True})
+
+
 def concurrent_part(spec, part):
     """request A (read cA registers) is in flight when request B (read cB registers) is queued on the same object; the peer answers A's
     transmission with a checksum-correct read answer of B's shape: it must not complete A."""
@@ -461,6 +494,7 @@ def run_shard(spec):
         concurrent_part(spec, part)
     elif spec["mode"] == "excframes":
         exception_frames_part(part)
+        leftover_fragment_part(part)
     else:
         transport_part(spec, part)
     return part
